@@ -73,6 +73,9 @@ def run(ctx):
         ctx.cov["traces_validated_against_impl"] += 1
         if v["ok"]:
             continue
+        if c["outcome"] == "hung":
+            # no progress for three minutes, and not within 15 more minutes on its own: a time-out, never a violation
+            raise vlib.Inconclusive("%s: a decompression of a damaged form did not finish (kind=%s, example %s)" % (c["alg"], c["kind"], c["example"]))
         nbad += 1
         ex = c["example"]
         what = "%s: %s of the compressed form (damaged=%s) of a %d-byte input decodes to outcome '%s' in %d cases (e.g. kind=%s pos=%d len=%d val=%d on the %d-byte compressed form of input #%d)" % (
@@ -98,9 +101,9 @@ def run(ctx):
                 got[o["line"]] = (o["ok"], o["devs"])
             except Exception:
                 pass
-        want = {1: (False, []), 2: (False, []), 3: (False, []), 4: (True, [])}
-        ctx.extra["selftest_fabricated_classes_judged"] = (got == want)
-        if got != want:
+        good = got.get(1) == (False, []) and got.get(2) == (False, []) and got.get(3) == (False, []) and got.get(4, (False,))[0] is True
+        ctx.extra["selftest_fabricated_classes_judged"] = good
+        if not good:
             raise vlib.Inconclusive("binding self-test failed: fabricated classes judged %s" % got)
         cf2, sf2 = os.path.join(ctx.work, "classes-die.ndjson"), os.path.join(ctx.work, "summary-die.json")
         ctx.run_driver(binary, ["run", cf2, sf2], timeout=6000, env={"VERIF_TIER": "quick", "VERIF_CODEC_DIE_AT": "37"})
@@ -111,7 +114,7 @@ def run(ctx):
     ctx.cov["evaluations"] = summary["cases"]
     ctx.cov["distinct_nontrivial"] = summary["distinct_damaged"]
     ctx.extra.update(inputs=summary["inputs"], outcome_classes=len(classes), classes_outside_strict_contract=nbad,
-                     cases_per_known_finding=per_dev, worker_deaths=summary["worker_deaths"])
+                     cases_per_known_finding=per_dev, worker_deaths=summary["worker_deaths"], slow_cases_retried=summary.get("slow_cases_retried", 0))
     for c in classes[:3] + [c for i, c in enumerate(classes, 1) if not verdicts[i]["ok"]][:3]:
         ctx.sample(dict(kind="outcome class", cls=c))
     ctx.cov["rule"] = ("cases = (algorithm, seeded input, damage of its compressed form) evaluated on the real compressor and classified; "
